@@ -666,11 +666,12 @@ type profile struct {
 	maxTxns                               int
 	nonceNoise, failMode, edgeAmt, multiT int // per-100 weights
 	edgyHist                              int // per-100: histories that use boundary balances / amounts at all
+	orderQ                                int // per-100 per contract call: order-sensitive transfer queue
 	upper                                 int // per-100 per txn: aim a transfer at the upper-case spelling of an existing id
 }
 
 func profileFor(prop string, o vh.Opts) profile {
-	p := profile{maxTxns: o.N(12, 40), nonceNoise: 12, failMode: 25, edgeAmt: 14, multiT: 40, edgyHist: 25}
+	p := profile{maxTxns: o.N(12, 40), nonceNoise: 12, failMode: 25, edgeAmt: 14, multiT: 40, edgyHist: 25, orderQ: 6}
 	switch prop {
 	case "C02":
 		p.failMode = 55
@@ -678,10 +679,12 @@ func profileFor(prop string, o vh.Opts) profile {
 		p.nonceNoise = 40
 	case "C04":
 		p.multiT = 70
+		p.orderQ = 15
 	case "C05":
 		p.edgeAmt = 25
 		p.edgyHist = 45
 		p.multiT = 65
+		p.orderQ = 20
 	}
 	return p
 }
@@ -913,6 +916,52 @@ func genScript(r *vh.Rand, p profile, t chainh.Txn, snap map[int]chainh.Acct, cl
 		}
 		return clients[r.Intn(len(clients))]
 	}
+	// order-sensitive queues: the same (from, to) pair twice with a dependent transfer in between
+	// (chain a->b, b->c, a->b; cycle a->b, b->a, a->b), amounts at the balance +-1 so that the
+	// order in which the contract queued them decides whether the transaction can be applied
+	if r.Chance(p.orderQ, 100) {
+		a, b, c := anyAcct(), anyAcct(), anyAcct()
+		for b == a {
+			b = clients[r.Intn(len(clients))]
+		}
+		for c == a || c == b {
+			c = clients[r.Intn(len(clients))]
+			if len(clients) < 3 && (c == a || c == b) {
+				c = fresh
+				break
+			}
+		}
+		A, B := snap[a].Bal, snap[b].Bal
+		if A >= 2 && A < 1<<62 && B < 1<<62 {
+			x := A/2 + uint64(r.Range(0, 1))
+			z := A - x
+			if r.Chance(1, 4) && z > 0 {
+				z -= uint64(r.Range(0, 1))
+			}
+			if r.Bool() { // chain: b->c needs part of the second a->b
+				y := B + x + uint64(r.Range(0, 2))
+				if r.Chance(1, 3) {
+					y = B + x + z
+				}
+				s.Ops = append(s.Ops, chainh.ScOp{K: "t", From: a, To: b, Amt: x}, chainh.ScOp{K: "t", From: b, To: c, Amt: y}, chainh.ScOp{K: "t", From: a, To: b, Amt: z})
+			} else { // cycle: the second a->b is paid out of what b sent back
+				x = A - uint64(r.Range(0, 1))
+				y := uint64(r.Range(1, 10))
+				if y > B+x {
+					y = B + x
+				}
+				z2 := y + A - x
+				if r.Chance(1, 3) {
+					z2++
+				}
+				s.Ops = append(s.Ops, chainh.ScOp{K: "t", From: a, To: b, Amt: x}, chainh.ScOp{K: "t", From: b, To: a, Amt: y}, chainh.ScOp{K: "t", From: a, To: b, Amt: z2})
+			}
+			if r.Chance(1, 3) {
+				s.Ops = append(s.Ops, chainh.ScOp{K: "w", Key: nodeKey(r), Val: int64(r.Range(1, 99))})
+			}
+			return s
+		}
+	}
 	// most calls first look at a few nodes (as contracts load their global node, partitions ...)
 	for k, n := 0, r.Range(0, 3); k < n; k++ {
 		s.Ops = append(s.Ops, chainh.ScOp{K: "r", Key: nodeKey(r)})
@@ -1084,6 +1133,30 @@ func exhaustive(fee bool) []hist {
 				}
 				out = append(out, hist{Fee: fee, Init: init, Txns: []chainh.Txn{{Type: 1000, From: 3, To: chainh.IDScript, Value: 0, Fee: 1, Nonce: 1, Round: 3,
 					Script: chainh.Script{Mode: "ok", Out: 1, Ops: []chainh.ScOp{{K: "t", From: 3, To: 4, Amt: amt}, {K: "w", Key: 1, Val: 1}}}}}})
+			}
+		}
+	}
+	return out
+}
+
+// exhaustive order scope: one contract call over accounts a=3 (10 tokens), b=4 (0 or 5), c=5 that
+// queues a chain a->b x, b->c y, a->b z or a cycle a->b x, b->a y, a->b z, amounts around the
+// points where the order of the queue decides.
+func exhaustiveOrder() []hist {
+	var out []hist
+	for _, bb := range []uint64{0, 5} {
+		for _, x := range []uint64{4, 5, 6, 10} {
+			for _, y := range []uint64{4, 5, 9, 10, 11, 15} {
+				for _, z := range []uint64{0, 4, 5, 6, 10} {
+					for kind := 0; kind < 2; kind++ {
+						ops := []chainh.ScOp{{K: "t", From: 3, To: 4, Amt: x}, {K: "t", From: 4, To: 5, Amt: y}, {K: "t", From: 3, To: 4, Amt: z}}
+						if kind == 1 {
+							ops[1] = chainh.ScOp{K: "t", From: 4, To: 3, Amt: y}
+						}
+						out = append(out, hist{Fee: true, Init: []chainh.Acct{{ID: 3, Bal: 10, Txn: -1}, {ID: 4, Bal: bb, Txn: -1}, {ID: 6, Bal: 9, Txn: -1}},
+							Txns: []chainh.Txn{{Type: 1000, From: 6, To: chainh.IDScript, Fee: 1, Nonce: 1, Round: 2, Script: chainh.Script{Mode: "ok", Out: 1, Ops: ops}}}})
+					}
+				}
 			}
 		}
 	}
@@ -1364,6 +1437,13 @@ func main() {
 			}
 		}
 		rep.Note("exhaustive single-transfer scope: %d one-transaction histories (6 source x 6 destination balances x 7 amounts, send and contract-queued, fees on/off) run on the implementation oracle; a third of them (all in the thorough tier) also compared with the model", nEx)
+	}
+	if prop == "C05" || prop == "C04" {
+		hs := exhaustiveOrder()
+		for i, h := range hs {
+			handle(h, i%4 == int(o.Seed%4) || o.Thorough())
+		}
+		rep.Note("exhaustive order scope: %d one-call histories queuing a->b x, b->c y (or b->a y), a->b z with x, y, z around the amounts where the queue order decides; oracle = sequential application in the order the contract called AddTransfer; a quarter (all in the thorough tier) also compared with the model", len(hs))
 	}
 	if prop == "C03" {
 		edge := []int64{math.MinInt64, math.MinInt64 + 1, -1, 0, 1, 2, 5, 6, 7, 8, math.MaxInt64 - 1, math.MaxInt64}
